@@ -512,6 +512,51 @@ func shapeFacts() map[string]any {
 		decideOK = nparams == 2 && len(callsNamed(fd.Body, "RecursionWorkEnforcementError")) > 0
 	}
 	out["shape_cacheable_reads_ledger_at_decision"] = decideOK
+
+	// Resolve and subQuery replace ANY outcome of resolve() by the latched enforcement error: the
+	// re-check after `r.resolve(` is conditional on "a ledger exists" only, not on resolve's own error
+	relabel := func(name, ledgerExpr string) bool {
+		fd := res.fn("Resolver", name)
+		if fd == nil {
+			return false
+		}
+		rec := callsNamed(fd.Body, "resolve")
+		if len(rec) == 0 {
+			return false
+		}
+		after := maxPos(rec)
+		ok := false
+		for _, c := range callsNamed(fd.Body, "EnforcementError") {
+			if c.Pos() < after {
+				continue
+			}
+			conds := res.enclosingConds(fd.Body, c.Pos())
+			// the call sits in the Init of `if workErr := …; workErr != nil`, itself inside `if <ledger> != nil`
+			if len(conds) == 1 && conds[0] == ledgerExpr+" != nil" {
+				ok = true
+			} else {
+				return false
+			}
+		}
+		return ok
+	}
+	out["shape_resolve_relabels_unconditionally"] = relabel("Resolve", "work") && relabel("subQuery", "child.work")
+
+	// the nameserver-address refresh runs on the request's own context (ledger, attempt guard, deadline)
+	refreshOK := false
+	if fd := res.fn("Resolver", "checkHosts"); fd != nil {
+		for _, c := range callsNamed(fd.Body, "WithContext") {
+			if len(c.Args) == 1 {
+				if id, ok := c.Args[0].(*ast.Ident); ok && id.Name == "ctx" {
+					refreshOK = true
+				}
+			}
+		}
+		if len(callsNamed(fd.Body, "Background", "WithoutCancel", "TODO")) > 0 {
+			refreshOK = false
+		}
+	}
+	out["shape_checkhosts_uses_request_context"] = refreshOK
 	return out
 }
 
@@ -546,6 +591,8 @@ func facts() map[string]any {
 		}()
 		sec[k] = (&middleware.RecursionWorkLimitError{Kind: middleware.RecursionWorkKind(k)}).EDECode() == dns.ExtendedErrorCodeDNSSECIndeterminate
 	}
+	out["detached_copy_keeps_policy"] = middleware.VerifC12DetachedKeepsPolicy(middleware.RecursionWorkPolicy{Mode: middleware.RecursionWorkEnforce, MaxOutboundQueries: 3, MaxInternalQueries: 2}) &&
+		middleware.VerifC12DetachedKeepsPolicy(middleware.RecursionWorkPolicy{Mode: middleware.RecursionWorkShadow, MaxOutboundQueries: 7})
 	out["kind_aggregate"] = agg
 	out["kind_dnssec"] = sec
 	return out
